@@ -219,19 +219,33 @@ func injective(k, m int, ok func(i, c int) bool) bool {
 	return true
 }
 
+// distinctExisting: the names designate distinct rows: no name is listed more often than rows carry
+// it (rows may share a name after an in-place rename; the clauses count rows, not names)
 func distinctExisting(names []string, rows []gen.Row) bool {
-	have := map[string]bool{}
-	for _, r := range rows {
-		have[r.Name] = true
-	}
-	seen := map[string]bool{}
+	have := nameCounts(rows)
 	for _, n := range names {
-		if !have[n] || seen[n] {
+		if have[n] == 0 {
 			return false
 		}
-		seen[n] = true
+		have[n]--
 	}
 	return true
+}
+
+func nameCounts(rows []gen.Row) map[string]int {
+	m := map[string]int{}
+	for _, r := range rows {
+		m[r.Name]++
+	}
+	return m
+}
+
+func listCounts(names []string) map[string]int {
+	m := map[string]int{}
+	for _, n := range names {
+		m[n]++
+	}
+	return m
 }
 
 func rowIndex(rows []gen.Row) map[string]int {
@@ -588,10 +602,7 @@ func invRogue(orig, got []gen.Row, rogue, intact []string, haveIntact bool, prop
 	if !distinctExisting(rogue, orig) {
 		return amb, fmt.Errorf("rogue names %q are not distinct rows of the alignment", rogue)
 	}
-	isRogue := map[string]bool{}
-	for _, r := range rogue {
-		isRogue[r] = true
-	}
+	rogueOf := listCounts(rogue)
 	if haveIntact {
 		if !distinctExisting(intact, orig) {
 			return amb, fmt.Errorf("intact names %q are not distinct rows of the alignment", intact)
@@ -599,25 +610,30 @@ func invRogue(orig, got []gen.Row, rogue, intact []string, haveIntact bool, prop
 		if len(intact)+len(rogue) != n {
 			return amb, fmt.Errorf("rogue (%d) and intact (%d) names do not partition the %d rows", len(rogue), len(intact), n)
 		}
-		for _, x := range intact {
-			if isRogue[x] {
-				return amb, fmt.Errorf("%q is reported both rogue and intact", x)
+		// every name is listed, rogue or intact, as often as rows carry it
+		intactOf := listCounts(intact)
+		for name, k := range nameCounts(orig) {
+			if rogueOf[name]+intactOf[name] != k {
+				return amb, fmt.Errorf("%d rows are named %q, it is listed %d times as rogue and %d times as intact: the lists do not partition the rows (rogue %q, intact %q)", k, name, rogueOf[name], intactOf[name], rogue, intact)
 			}
 		}
 	}
 	_, wHi := floors(proplen, l)
+	changedOf := map[string]int{}
 	for i := range orig {
-		if !isRogue[orig[i].Name] {
-			if orig[i].Seq != got[i].Seq {
-				return amb, fmt.Errorf("intact row %s changed: %q -> %q", orig[i].Name, orig[i].Seq, got[i].Seq)
-			}
+		if orig[i].Seq == got[i].Seq {
 			continue
 		}
+		name := orig[i].Name
+		changedOf[name]++
+		if changedOf[name] > rogueOf[name] {
+			return amb, fmt.Errorf("intact row %d (%s) changed: %q -> %q (%d rogue rows of that name)", i, name, orig[i].Seq, got[i].Seq, rogueOf[name])
+		}
 		if sortedBytes(orig[i].Seq) != sortedBytes(got[i].Seq) {
-			return amb, fmt.Errorf("rogue row %s is not a permutation of itself: %q -> %q", orig[i].Name, orig[i].Seq, got[i].Seq)
+			return amb, fmt.Errorf("rogue row %s is not a permutation of itself: %q -> %q", name, orig[i].Seq, got[i].Seq)
 		}
 		if d := len(diffPositions(orig[i].Seq, got[i].Seq)); d > wHi {
-			return amb, fmt.Errorf("rogue row %s differs in %d positions, at most floor(proplen*L) = %d are shuffled", orig[i].Name, d, wHi)
+			return amb, fmt.Errorf("rogue row %s differs in %d positions, at most floor(proplen*L) = %d are shuffled", name, d, wHi)
 		}
 	}
 	return amb, nil
